@@ -311,6 +311,9 @@ fn table_gens(prop: u32, tier: &str, rng: &mut Rng, emit: &mut Emit) {
     }
 }
 
+/// the table components' oversize cases (C18)
+fn table_gens18(_tier: &str, _rng: &mut Rng, _emit: &mut Emit) {}
+
 fn main() {
     std::panic::set_hook(Box::new(|info| {
         // harness bugs must be loud; crate refusals are silent
@@ -341,6 +344,10 @@ fn main() {
                 9 => kernels::gen_c09(tier, &mut rng, &mut emit),
                 16 => kernels::gen_c16(tier, &mut rng, &mut emit),
                 17 => cksum::gen(tier, &mut rng, &mut emit),
+                18 => {
+                    amlterm::gen_c18(tier, &mut rng, &mut emit);
+                    table_gens18(tier, &mut rng, &mut emit);
+                }
                 14 => {
                     // objects produced by the table and AML generators, each into every sink
                     emit.redirect14 = true;
